@@ -55,10 +55,15 @@ __CPROVER_ensures(__CPROVER_old(rthread.ready) && !__CPROVER_old(rthread.finishe
 __CPROVER_ensures(g_store_calls == __CPROVER_old(g_store_calls) + 1 && !g_store_failed)
 __CPROVER_ensures((g_keys_at_store & (K_MANDATORY | K_FINISHED)) == (K_MANDATORY | K_FINISHED) && g_finished_at_store == 1.0)
 __CPROVER_ensures(rthread.finished == 1 && rthread.ready == 0)
+/* a rank set with ovni_proc_set_rank reaches the stored metadata whether or not this thread
+ * declared CPUs (another process of the loom may declare them) */
+__CPROVER_ensures(!rthread.rank_set || ((g_keys_at_store & (K_RANK | K_NRANKS)) == (K_RANK | K_NRANKS) &&
+	g_v_rank == (double) rthread.rank && g_v_nranks == (double) rthread.nranks))
 ;
 void h_ovni_thread_free(void)
 {
 	ovni_thread_free();
 	REACH("ovni_thread_free returns");
 	if (g_keys & K_RANK) REACH("rank was stored too");
+	if (!(g_keys & K_RANK)) REACH("no rank set");
 }
